@@ -133,6 +133,9 @@ class WirePropagateManager(WireManagerBase):
         """Checks each wire whether their coincidents (wires from other blocks)
         have grading defined already; if so, copy it and return True.
         Returns False otherwise"""
+        # wires were created with straight edges; lengths of curved ones must be refreshed
+        self.update()
+
         self.copy_neighbours()
         self.propagate_grading()
 
